@@ -133,7 +133,7 @@ theorem reachable_good3 (r : Router) (h : Reachable r) : Good3 r.root := by
 its tree; hence sound and complete for `Fits`, for every constraint environment. -/
 theorem Router.search_eq_walk (env : Env) (r : Router) (h : Reachable r) (path : Bytes) :
     r.search env path =
-      (refWalk env path.length (Node.routes r.root) path []).map (fun (i, ps) => ⟨i.template, i.expanded, i.data, ps⟩) := by
+      (refWalk env path.length (Node.routes r.root) path []).map toMatch := by
   obtain ⟨hS, hR, hF⟩ := reachable_good3 r h
   unfold Router.search
   rw [Node.search_eq_refWalk env _ (TSany_of_Shp_Srt _ hS hR) hF path [] path.length (Nat.le_refl _)]
